@@ -230,9 +230,10 @@ def run_obligations(obls, log):
                 continue
             groups = {}
             for o in mine:
-                key = (tuple(sorted(f for f in o.flags if f in ("nofloat",))), o.budget)
+                key = (tuple(sorted(f for f in o.flags if f in ("nofloat",))), 0)
                 groups.setdefault(key, []).append(o)
-            for (flags, budget), os_ in sorted(groups.items()):
+            for (flags, _b), os_ in sorted(groups.items()):
+                budget = max(o.budget for o in os_)
                 heavy = any("heavy" in o.flags for o in os_)
                 jobs = min(NCPU, 4) if heavy else NCPU
                 outjson = os.path.join(E3DIR, f"out-{fam}-{os.getpid()}.json")
@@ -244,7 +245,7 @@ def run_obligations(obls, log):
                        "--harness-timeout", f"{budget}s"]
                 if "nofloat" in flags:
                     cmd.append("--no-overflow-checks")
-                for o in os_:
+                for o in sorted(os_, key=lambda o: -o.budget):
                     cmd += ["--harness", o.harness]
                 info["cmds"].append(f"(cd <scratch>/e3/{fam}; " + " ".join(cmd[:12]) + f" … {len(os_)} harnesses)")
                 log(f"[e3] cargo kani family={fam} harnesses={len(os_)} budget={budget}s jobs={jobs}")
